@@ -108,6 +108,15 @@ pub mod vx_canon {
     }
 }
 
+// ---- std specs missing from vstd (trusted; the contract is the std documentation)
+verus! {
+pub assume_specification<T, P: FnOnce(&T) -> bool> [core::option::Option::<T>::filter] (o: Option<T>, p: P) -> (r: Option<T>)
+    requires o is Some ==> call_requires(p, (&o->Some_0,)),
+    ensures (match o {
+        Some(x) => (match r { Some(y) => x == y && call_ensures(p, (&x,), true), None => call_ensures(p, (&x,), false) }),
+        None => r is None });
+}
+
 // ---- R9 trusted wrappers (same body as the std call they rename; only the contract is new) ----
 verus! {
 pub trait VxAsDeref {
